@@ -6,6 +6,24 @@ use swc_ecma_ast::{
     PropOrSpread, Str,
 };
 
+/// the key of a property of an emitted object literal; `"__proto__": v` would set the prototype of the object
+/// instead of defining a property, so that one name is written as a computed key
+pub fn object_lit_key(key: &str) -> PropName {
+    let name = Str {
+        span: DUMMY_SP,
+        value: key.into(),
+        raw: None,
+    };
+    if key == "__proto__" {
+        PropName::Computed(swc_ecma_ast::ComputedPropName {
+            span: DUMMY_SP,
+            expr: Box::new(Expr::Lit(Lit::Str(name))),
+        })
+    } else {
+        PropName::Str(name)
+    }
+}
+
 #[derive(Debug, Clone, PartialEq, Eq, PartialOrd, Ord, Hash)]
 pub struct N {
     integral: i64,
@@ -166,11 +184,7 @@ impl Json {
                     .into_iter()
                     .map(|(key, value)| {
                         PropOrSpread::Prop(Box::new(Prop::KeyValue(KeyValueProp {
-                            key: PropName::Str(Str {
-                                span: DUMMY_SP,
-                                value: key.into(),
-                                raw: None,
-                            }),
+                            key: object_lit_key(&key),
                             value: Box::new(value.to_expr()),
                         })))
                     })
